@@ -405,9 +405,22 @@ fn check_usage_variants(unit: &Value, o: &Opts, base_text: &str, ctx: &mut Ctx) 
             if matches!(fields[i], P::Pos { .. } | P::Cmd { .. }) || fields[i].size() > 40 {
                 continue;
             }
-            for variant in 0..2 {
+            for variant in 0..4 {
                 let mut f2 = fields.clone();
-                f2[i] = if variant == 0 { P::HideUsage(f2[i].clone().bx()) } else { P::CustomUsage(f2[i].clone().bx(), DocSpec::plain("SOMETHING")) };
+                // variants 2 and 3: the annotation sits INSIDE the field's outermost wrapper when
+                // that wrapper is what puts the field into the lists (a titled group, a shown default)
+                let deco = |x: P| if variant % 2 == 0 { P::HideUsage(x.bx()) } else { P::CustomUsage(x.bx(), DocSpec::plain("SOMETHING")) };
+                f2[i] = if variant < 2 {
+                    deco(f2[i].clone())
+                } else {
+                    match f2[i].clone() {
+                        P::GroupHelp(x, d) => P::GroupHelp(deco(*x).bx(), d),
+                        P::WithGroupHelp(x, d) => P::WithGroupHelp(deco(*x).bx(), d),
+                        P::Fallback(x, v, shown) => P::Fallback(deco(*x).bx(), v, shown),
+                        P::Optional(x, c) => P::Optional(deco(*x).bx(), c),
+                        _ => continue,
+                    }
+                };
                 let o2 = Opts { p: P::Seq(f2), cfg: o.cfg.clone() };
                 let p2 = match build_checked(&o2) {
                     Ok(p) => p,
@@ -417,7 +430,7 @@ fn check_usage_variants(unit: &Value, o: &Opts, base_text: &str, ctx: &mut Ctx) 
                 ctx.s.transitions += 1;
                 if let Outcome::Stdout { text, .. } = help_text(&p2, &[]) {
                     if after_usage(&text) != after_usage(base_text) {
-                        ctx.violation(viol("hide_usage-custom_usage-change-only-the-usage-line", unit, &[], format!("item lists unchanged when field {} gets {}", i, if variant == 0 { "hide_usage" } else { "custom_usage" }), &text));
+                        ctx.violation(viol("hide_usage-custom_usage-change-only-the-usage-line", unit, &[], format!("item lists unchanged when field {} gets {}{}", i, if variant % 2 == 0 { "hide_usage" } else { "custom_usage" }, if variant >= 2 { " inside its outermost wrapper" } else { "" }), &text));
                     } else {
                         ctx.count("usage-variants-compared");
                     }
